@@ -10,7 +10,11 @@
 //	                          SAME api key at versions on both sides of its flexible boundary for <ms> milliseconds;
 //	                          every result is compared with what was encoded (header fields, body bytes, re-encoded
 //	                          decoded request).  Prints `conc ok parses=N` or `conc mismatch <what> rt <k> <v> <corr> <cid> <payload>`
-//	verif_c10                 op loop (hdr / skip / frame / frames / rt / enc lines)
+//	verif_c10                 op loop (hdr / skip / frame / frames / rt / enc / kdec / preq lines)
+//
+// kdec k v <bodyhex>        the ORACLE for the body stage: kmsg alone (RequestForKey, SetVersion, ReadFrom) -> `kdec unk|ok|err|panic`
+// preq <oracle> <hex>       protocol.ParseRequest (header AND body) on the payload; the first word is the kdec result for the
+//                           body (input of the model, ignored here) -> `ok k v corr cid=..` / `err` / `panic`
 package main
 
 import (
@@ -167,6 +171,8 @@ func doOp(f []string) (out string) {
 		if r := recover(); r != nil {
 			if f[0] == "rt" {
 				out = "rt panic"
+			} else if f[0] == "kdec" {
+				out = "kdec panic"
 			} else {
 				out = "panic"
 			}
@@ -281,6 +287,41 @@ func doOp(f []string) (out string) {
 			}
 		}
 		return "enc " + hx(out)
+	case f[0] == "kdec" && len(f) == 4:
+		k, e1 := strconv.ParseInt(f[1], 10, 16)
+		v, e2 := strconv.ParseInt(f[2], 10, 16)
+		b, ok := unhx(f[3])
+		if e1 != nil || e2 != nil || !ok {
+			return "bad-op"
+		}
+		req := kmsg.RequestForKey(int16(k))
+		if req == nil {
+			return "kdec unk"
+		}
+		req.SetVersion(int16(v))
+		if err := req.ReadFrom(b); err != nil {
+			return "kdec err"
+		}
+		return "kdec ok"
+	case f[0] == "preq" && len(f) == 3:
+		b, ok := unhx(f[2])
+		if !ok {
+			return "bad-op"
+		}
+		h, req, err := protocol.ParseRequest(b)
+		if err != nil {
+			if h != nil || req != nil {
+				return "err WITH-VALUE"
+			}
+			return "err"
+		}
+		if h == nil || req == nil {
+			return "ok NIL-VALUE"
+		}
+		if req.Key() != h.APIKey || req.GetVersion() != h.APIVersion {
+			return fmt.Sprintf("ok %d %d %d cid=%s DECODED-AS %d v%d", h.APIKey, h.APIVersion, h.CorrelationID, cidStr(h.ClientID), req.Key(), req.GetVersion())
+		}
+		return fmt.Sprintf("ok %d %d %d cid=%s", h.APIKey, h.APIVersion, h.CorrelationID, cidStr(h.ClientID))
 	case f[0] == "rt" && len(f) == 6:
 		k, e1 := strconv.Atoi(f[1])
 		v, e2 := strconv.Atoi(f[2])
